@@ -33,7 +33,11 @@ def load_known_findings(prop):
             kf = json.load(f)
     except FileNotFoundError:
         return []
-    return [e for e in kf.get("findings", []) if e.get("property") == prop and e.get("status", "open") == "open"]
+    def _match(e):
+        p = e.get("property")
+        return (prop in p) if isinstance(p, (list, tuple)) else p == prop
+
+    return [e for e in kf.get("findings", []) if _match(e) and e.get("status", "open") == "open"]
 
 
 def jsonable(x):
